@@ -51,10 +51,10 @@ struct ReqSpec { int cmd; Method kind; bool close_opt; bool expect; std::string 
 const char *key_for_features(uint32_t f, const ReqSpec &rq, h9112c::Framing fr, uint64_t cl) {
   using namespace h9112c;
   // root causes that apply whatever the request method is come first (a CONNECT request reaches them like any other one) ...
-  if (f & C_INTERIM_OTHER) return K_INTERIM;
   if (f & C_TE_LIST) return K_TELIST;
   if ((f & C_CLOSE_DELIMITED) && (f & C_CONN_FIELD)) return K_NOLEN;
   // ... then the ones that only name a regression of something already fixed
+  if (f & C_INTERIM_OTHER) return K_INTERIM;
   if ((f & C_INTERIM_100) && (f & C_INTERIM_FIELDS)) return K_100HDRS;
   if ((f & C_CONNECT_OTHER) && (fr == FR_CHUNKED || fr == FR_CLOSE || (fr == FR_CL && cl > 0))) return K_CONNECTBODY;
   if (f & C_CHUNK_EXT) return K_CHUNKEXT;
